@@ -88,8 +88,7 @@ _scratch = None
 def scratch():
     global _scratch
     if _scratch is None or _scratch[0] != os.getpid():
-        base = "/dev/shm" if os.path.isdir("/dev/shm") and os.access("/dev/shm", os.W_OK) else None
-        d = tempfile.mkdtemp(prefix="tallymc-", dir=base)
+        d = tempfile.mkdtemp(prefix="tallymc-", dir=H.TMP)
         import atexit
         atexit.register(shutil.rmtree, d, True)
         _scratch = (os.getpid(), d)
